@@ -27,12 +27,12 @@ type fakeBlock struct {
 	size int
 }
 
-func (b *fakeBlock) GetHeader() wire.BlockHeader  { return wire.BlockHeader{} }
-func (b *fakeBlock) IsMerkleRootValid() bool      { return true }
-func (b *fakeBlock) GetTxCount() uint64           { return 0 }
+func (b *fakeBlock) GetHeader() wire.BlockHeader     { return wire.BlockHeader{} }
+func (b *fakeBlock) IsMerkleRootValid() bool         { return true }
+func (b *fakeBlock) GetTxCount() uint64              { return 0 }
 func (b *fakeBlock) GetNextTx() (*wire.MsgTx, error) { return nil, nil }
-func (b *fakeBlock) ResetTxs()                    {}
-func (b *fakeBlock) SerializeSize() int           { return b.size }
+func (b *fakeBlock) ResetTxs()                       {}
+func (b *fakeBlock) SerializeSize() int              { return b.size }
 
 func c13Hash(i int) bitcoin.Hash32 {
 	var b [12]byte
